@@ -819,7 +819,7 @@ func (w *vWorld) afterEvent() {
 	// C03/C06 (representation): the wait list holds exactly the live waiting jobs, in acceptance order.
 	// A job that waits but is not on the list can never be dequeued; a list out of acceptance order
 	// starts jobs out of order (the dequeue pops the front).
-	if defined && !w.r.isShuttingDown {
+	if defined {
 		wl := w.r.waitListByPipeline[vP]
 		lastSeq := -1
 		inOrder := true
@@ -854,7 +854,7 @@ func (w *vWorld) afterEvent() {
 
 	// C03: stuck-freedom. The oldest live waiting job must have something pending that will start it.
 	waiting := w.waitingJobs()
-	if len(waiting) > 0 && defined && !w.r.isShuttingDown {
+	if len(waiting) > 0 && defined {
 		h := waiting[0]
 		timerPending := h.timer != nil && !h.timer.fired && !h.timer.stopped
 		timerDone := h.timer == nil || h.timer.fired
@@ -877,6 +877,62 @@ func (w *vWorld) afterEvent() {
 	}
 }
 
+// vPersistJob: what SaveToStore writes for a job, reduced to what events change (flags, presence of
+// instants and errors, task statuses).
+type vPersistJob struct {
+	id                                        uuid.UUID
+	completed, canceled, started, ended, errd bool
+	tasks                                     string
+}
+
+func (w *vWorld) persistView() []vPersistJob {
+	var out []vPersistJob
+	for _, vj := range w.jobs {
+		j := vj.job
+		if _, ok := w.r.jobsByID[vj.id]; !ok {
+			continue
+		}
+		pv := vPersistJob{id: vj.id, completed: j.Completed, canceled: j.Canceled, started: j.Start != nil, ended: j.End != nil, errd: j.LastError != nil}
+		for _, t := range j.Tasks {
+			pv.tasks += t.Name + ":" + t.Status
+			if t.Start != nil {
+				pv.tasks += "s"
+			}
+			if t.End != nil {
+				pv.tasks += "e"
+			}
+			if t.Errored {
+				pv.tasks += "E"
+			}
+			if t.Canceled {
+				pv.tasks += "C"
+			}
+			pv.tasks += ";"
+		}
+		out = append(out, pv)
+	}
+	return out
+}
+
+func vSamePersistView(a, b []vPersistJob) bool {
+	if len(a) != len(b) {
+		return false
+	}
+	for i := range a {
+		if a[i] != b[i] {
+			return false
+		}
+	}
+	return true
+}
+
+func (w *vWorld) drainPersistRequest() {
+	select {
+	case <-w.r.persistRequests:
+	default:
+	}
+}
+
 // VerifBMC explores all histories of up to K events over up to N jobs of one pipeline.
 func VerifBMC() {
 	K := verifBound("K", 5)
@@ -890,6 +946,10 @@ func VerifBMC() {
 		}
 		ev := evs[verifChoose("event", len(evs))]
 		w.evStart = vNowNs()
+		// C11 (persist discipline): take the pending persist request away, remember what a save would
+		// write; if the event changes that, it must have asked for a save again
+		w.drainPersistRequest()
+		viewBefore := w.persistView()
 		switch ev.kind {
 		case 0:
 			w.doSchedule(false)
@@ -919,6 +979,10 @@ func VerifBMC() {
 			w.scanSpawned()
 		case 9:
 			w.doTaskCanceled(w.jobs[ev.idx])
+		}
+		if !vSamePersistView(viewBefore, w.persistView()) {
+			verifReach("persist.state-changed")
+			verifAssert(len(w.r.persistRequests) > 0, "C11.acknowledged-change-requests-a-save")
 		}
 		w.afterEvent()
 	}
